@@ -135,7 +135,7 @@ func c01Degenerate() []string {
 		"var a =", "var a, b =", "x = 1; *x = 2", "f = func(a) { }; f(...)", "f = func(a, b) { }; f(...)", "probe(...)",
 		"a = nilptrs; for x in a { x }", "\"s\" * 9223372036854775807", "\"ab\" * 4611686018427387904", "go boom()", "go boomv(1)",
 		"go func() { boom() }()", "a = 1; make(a.b)", "add([1, 2]...)", "hfix3([1, 2, 3]...)", "cat([\"a\", \"b\"]...)", "add(list...)",
-		"x = nilptrs[0]; \"s\" + x", "return", "a, = 1", "[ ]", "{ }", "throw", "delete()", "close(nothing)", "close(ch); close(ch)",
+		"x = nilptrs[0]; \"s\" + x", "[][]*string{nilptrs}", "[]*int64{nilptrs[0]}", "p = nilptrs[0]; [][]*int64{[p]}", "return", "a, = 1", "[ ]", "{ }", "throw", "delete()", "close(nothing)", "close(ch); close(ch)",
 		"ch <- 1; close(ch); ch <- 2", "<- nothing", "nothing <- 1", "a = []; a[0:1] = [1]", "a = \"s\"; a[1:2] = \"x\"", "*nothing = 1", "*pt = 1",
 		"&nothing", "x = &n; *x = \"s\"", "pt.A = \"s\"", "pt.C = 1", "pt.A.B", "nothing.x", "nothing.x = 1", "n.x = 1", "n[0] = 1", "n[0]", "str[-1]", "str[100]",
 		"list[1:0]", "list[0:9]", "list[0:1:99]", "list[-1:]", "ints[5] = 1", "ints[3] = \"s\"", "ints[0] = nothing", "strs[1] = 2", "strs.a = nil",
